@@ -159,8 +159,28 @@ pub fn gen_fs(c: &mut Choices) -> FsCase {
     let mut expected: BTreeSet<String> = BTreeSet::new();
     let top: Vec<String> = if nested_ok { layers.last().cloned().unwrap_or_default() } else { layers.iter().flatten().cloned().collect() };
     let mut used_consts: Vec<String> = vec![];
+    // a file of the same name one directory down, included by its relative path next to the
+    // plain one (two different files whose paths share their tail)
+    let sub_of: Option<String> = if !top.is_empty() && c.chance(80) { Some(top[c.pick(top.len())].clone()) } else { None };
+    let sub_first = c.chance(128);
+    let mut sub_line = String::new();
+    if let Some(n) = &sub_of {
+        tag += 1;
+        let dsel = placed[n][0];
+        std::fs::create_dir_all(dirs[dsel].join("sub")).unwrap();
+        let text = lib_text(c, tag, dsel, &[]);
+        std::fs::write(dirs[dsel].join("sub").join(n), text).unwrap();
+        placed.insert(format!("sub/{n}"), vec![dsel]);
+        sub_line = format!("  (include sub/{n})\n");
+        if sub_first {
+            main.push_str(&sub_line);
+        }
+    }
     for n in &top {
         main.push_str(&format!("  (include {n})\n"));
+    }
+    if sub_of.is_some() && !sub_first {
+        main.push_str(&sub_line);
     }
     // closure over the model
     let mut work = top.clone();
@@ -172,6 +192,10 @@ pub fn gen_fs(c: &mut Choices) -> FsCase {
                 work.push(e);
             }
         }
+    }
+    if let Some(n) = &sub_of {
+        expected.insert(format!("sub/{n}"));
+        used_consts.push(format!("KC_{tag}"));
     }
     // embeds
     let mut has_embed = false;
@@ -255,6 +279,13 @@ pub fn judge(fc: &FsCase, st: &mut Stats) -> Result<bool, Viol> {
                 for e in rd.flatten() {
                     if let Ok(t) = std::fs::read(e.path()) {
                         m.insert(e.file_name().to_string_lossy().to_string(), json!(String::from_utf8_lossy(&t).to_string()));
+                    } else if let Ok(rd2) = std::fs::read_dir(e.path()) {
+                        // one level of sub-directories
+                        for e2 in rd2.flatten() {
+                            if let Ok(t) = std::fs::read(e2.path()) {
+                                m.insert(format!("{}/{}", e.file_name().to_string_lossy(), e2.file_name().to_string_lossy()), json!(String::from_utf8_lossy(&t).to_string()));
+                            }
+                        }
                     }
                 }
             }
@@ -307,7 +338,15 @@ pub fn judge(fc: &FsCase, st: &mut Stats) -> Result<bool, Viol> {
         if !p.exists() {
             return Err(Viol::new("listed-name-is-not-an-existing-path", "an existing path", l.clone(), case(json!({"listed": listed}))));
         }
-        let base = p.file_name().map(|f| f.to_string_lossy().to_string()).unwrap_or_default();
+        // the model name this listed path stands for: the longest modelled name the path ends with
+        // at a path-component boundary ("sub/x.clib" before "x.clib")
+        let base = fc
+            .placed
+            .keys()
+            .filter(|n| l.ends_with(&format!("/{n}")))
+            .max_by_key(|n| n.len())
+            .cloned()
+            .unwrap_or_else(|| p.file_name().map(|f| f.to_string_lossy().to_string()).unwrap_or_default());
         if let Some(want) = resolve(fc, &base) {
             if &want != l {
                 return Err(Viol::new("listed-file-is-not-the-first-match", want, l.clone(), case(json!({"listed": listed}))));
@@ -343,7 +382,7 @@ impl Prop for C18Prop {
         "C18"
     }
     fn rule(&self) -> &'static str {
-        "Generated include trees on disk: 1..4 search directories in a generated order, a layered DAG of library files of depth 0..4 (includes that include), the same file name placed in several directories with different contents, embed-file bin/hex/sexp targets, decoy files, every sigil and classic. The listing is gather_dependencies (what -M prints); the files actually read are observed through a recording CompilerOpts (HasCompilerOptsDelegation, overriding read_new_file and propagated through every set_*) during compile_file, and independently derived from the generated graph. Oracle: (1) every file read (recorded or model-reachable) is listed under the path actually read; (2) every listed name is an existing path and is the first match in search-path order; (3) the compiler itself never reads a later same-named file. Over-listing is allowed. Non-trivial: depth >= 2, a duplicated file name, or an embed. Distinct by hash of main text + search order."
+        "Generated include trees on disk: 1..4 search directories in a generated order, a layered DAG of library files of depth 0..4 (includes that include), the same file name placed in several directories with different contents, a same-named file one directory down included by its relative path (sub/NAME next to NAME), embed-file bin/hex/sexp targets, decoy files, every sigil and classic. The listing is gather_dependencies (what -M prints); the files actually read are observed through a recording CompilerOpts (HasCompilerOptsDelegation, overriding read_new_file and propagated through every set_*) during compile_file, and independently derived from the generated graph. Oracle: (1) every file read (recorded or model-reachable) is listed under the path actually read; (2) every listed name is an existing path and is the first match in search-path order; (3) the compiler itself never reads a later same-named file. Over-listing is allowed. Non-trivial: depth >= 2, a duplicated file name, or an embed. Distinct by hash of main text + search order."
     }
     fn sections(&self, tier: Tier) -> Vec<Section> {
         vec![Section {
@@ -411,6 +450,9 @@ impl Prop for C18Prop {
             search.push(p.to_string_lossy().to_string());
             if let Some(fs) = files.get(dname.as_str()?).and_then(|f| f.as_object()) {
                 for (fname, content) in fs {
+                    if let Some(parent) = p.join(fname).parent() {
+                        std::fs::create_dir_all(parent).ok()?;
+                    }
                     std::fs::write(p.join(fname), content.as_str()?).ok()?;
                     placed.entry(fname.clone()).or_default().push(di);
                 }
